@@ -199,12 +199,19 @@ pub fn canon_debug(dbg: &str) -> String {
 
 // ---------------------------------------------------------------- dec / parse
 
+/// records how much the decoder call itself allocated
+fn mark<T>(x: T) -> T {
+    use std::sync::atomic::Ordering;
+    crate::alloc::DEC_ALLOC.store(crate::alloc::ALLOCATED.load(Ordering::Relaxed), Ordering::Relaxed);
+    x
+}
+
 pub fn run_dec<T>(bytes: &[u8]) -> String
 where
     T: ZvtSerializer + Debug,
     encoding::Default: encoding::Encoding<T>,
 {
-    guard(|| match T::zvt_deserialize(bytes) {
+    guard(|| match mark(T::zvt_deserialize(bytes)) {
         Err(e) => format!("err {}", err_kind(&e)),
         Ok((v, rem)) => {
             let val = canon_debug(&format!("{:?}", v));
@@ -224,7 +231,7 @@ pub trait Describe {
 }
 
 pub fn run_parse<T: ZvtParser + Describe>(bytes: &[u8]) -> String {
-    guard(|| match T::zvt_parse(bytes) {
+    guard(|| match mark(T::zvt_parse(bytes)) {
         Err(e) => format!("err {}", err_kind(&e)),
         Ok(v) => {
             let (i, name, dbg) = v.describe();
